@@ -1016,10 +1016,35 @@ impl StoryState {
         Ok(())
     }
 
+    /// Checks that every argument has a type that can be passed into ink,
+    /// without changing anything.
+    pub fn check_arguments(arguments: Option<&Vec<ValueType>>) -> Result<(), StoryError> {
+        if let Some(arguments) = arguments {
+            for arg in arguments {
+                match arg {
+                    ValueType::Bool(_)
+                    | ValueType::Int(_)
+                    | ValueType::Float(_)
+                    | ValueType::List(_)
+                    | ValueType::String(_) => {}
+                    _ => {
+                        return Err(StoryError::InvalidStoryState("ink arguments when calling EvaluateFunction / ChoosePathStringWithParameters must be \
+                        int, float, string, bool or InkList.".to_owned()));
+                    }
+                }
+            }
+        }
+
+        Ok(())
+    }
+
     pub fn pass_arguments_to_evaluation_stack(
         &mut self,
         arguments: Option<&Vec<ValueType>>,
     ) -> Result<(), StoryError> {
+        // Refuse before pushing anything, so that a bad argument leaves the stack as it was
+        Self::check_arguments(arguments)?;
+
         // Pass arguments onto the evaluation stack
         if let Some(arguments) = arguments {
             for arg in arguments {
